@@ -398,14 +398,16 @@ def exprEmpty (tol : Bool) (sb : Option Bool) (f : PSFields) (pos : Nat) : LRes 
   if tol || sb == some false then tupleOf (Node.chars pos pos (psInfo f) []) else .tuple .none (some pos) (some 0)
 
 /-- `get_latex_expression(pos, strict_braces)` against `parse_content(LatexExpressionParser(…))`:
-    a node → `(node with nodeargd erased, node.pos, node.len)`; the "closing brace" error with `strict_braces` not
-    `True` → the documented empty result; every other error is raised unchanged. -/
+    a node → `(node with nodeargd erased, node.pos, node.len)`; the "closing brace" error raised by this very parser
+    (`closeBraceMarker`: kind `closing_latex_group` and a recovery token; the re-wrapped error of a nested
+    expression parser has none) with `strict_braces` not `True` → the documented empty result; every other error —
+    in particular a nested closing-brace error — is raised unchanged. -/
 theorem C16_expression (env : Env) (n : Nat) (f : PSFields) (sb : Option Bool) (pos : Nat) :
     (∀ nd q, run env n (.pc (.expression true) f pos) = .ok (.node nd) q →
         getLatexExpression env n f sb pos = tupleOf (stripArgs nd)) ∧
     (∀ e, run env n (.pc (.expression true) f pos) = .perr e →
         getLatexExpression env n f sb pos =
-          if e.what == .exprCloseBrace && !(sb == some true) then exprEmpty env.tol sb f pos else .perr e) ∧
+          if closeBraceMarker e && !(sb == some true) then exprEmpty env.tol sb f pos else .perr e) ∧
     (∀ e, getLatexExpression env n f sb pos = .perr e → run env n (.pc (.expression true) f pos) = .perr e) := by
   refine ⟨?_, ?_, ?_⟩
   · intro nd q h
@@ -437,6 +439,19 @@ theorem C16_expression (env : Env) (n : Nat) (f : PSFields) (sb : Option Bool) (
     | loopEnd e' => rw [hr] at h; cases h
     | crash k => rw [hr] at h; cases h
     | fuel => rw [hr] at h; cases h
+
+def nestCtx : Ctx := { macros := [(['m'], .std [⟨.m, .none⟩])], unknownMacro := some (.std []) }
+def nestEnv (s : String) : Env := { tol := false, ctx := nestCtx, s := s.toList }
+
+/-- the special case applies to the parser's own error only: at `}` the default call returns `(None, pos, 0)` and
+    `strict_braces=False` the dummy node; on `{\m}` (strict mode, `\m` takes one argument) the closing-brace error
+    comes from the nested expression parser, re-wrapped, and the shim raises it whatever `strict_braces` is -/
+example :
+    (getLatexExpression (nestEnv "}") 14 {} none 0).isTuple = true ∧
+    (getLatexExpression (nestEnv "}") 14 {} (some false) 0).isTuple = true ∧
+    (getLatexExpression (nestEnv "}") 14 {} (some true) 0).isPerr = true ∧
+    (getLatexExpression (nestEnv "{\\m}") 14 {} none 0).isPerr = true ∧
+    (getLatexExpression (nestEnv "{\\m}") 14 {} (some false) 0).isPerr = true := by decide
 
 /-- `get_latex_braced_group(pos, brace_type)`: `ValueError` exactly for the brace types that name no pair; otherwise
     `(node, node.pos, node.len)` of `LatexDelimitedGroupParser(delimiters=(o, c), allow_pre_space=True)`,
